@@ -1,1 +1,861 @@
-fn main(){}
+// fsx — ptrace controller for real cacache processes at the file-system system-call seam.
+//
+//   fsx <spec.json>      run ONE execution described by the spec, print a JSON report on stdout
+//
+// The explorer (Python) enumerates schedules / crash points / faults and calls fsx once per execution
+// from a fresh copy of the scenario's initial cache. x86-64 Linux only.
+//
+// spec:
+//   roots:   [abs paths]  syscalls whose path / descriptor lies under one of these are *steps*
+//   actors:  [{argv:[..], cwd:".."}]   one traced process per entry (process actors), or
+//   threads: {argv:[..], cwd:"..", n:N}  one traced process whose threads announce themselves with
+//            begin markers FSX:begin:<i> (thread actors)
+//   schedule: [actor, actor, ...]      choice at each decision point; afterwards the default policy
+//            (keep running the current actor if it is enabled, else the lowest enabled id)
+//   crash:   {step:k, tear:t|null}     kill the actor group at the entry of global step k (0-based);
+//            with tear: rewrite the length of that write to t, let it execute, kill at its exit
+//   faults:  [{step:i, errno:e} | {step:i, short:t} | {step:i, short:t, then_errno:e}]
+//   monitor: bool   record every path/descriptor call of the fs family, also outside the roots
+//   timeout_ms
+//
+// exit status: 0 = report printed (whatever the actors did), 2 = tracer failure.
+
+use serde_json::{json, Value};
+use std::collections::{HashMap, VecDeque};
+use std::ffi::CString;
+use std::os::unix::io::RawFd;
+
+const PTRACE_GET_SYSCALL_INFO: libc::c_uint = 0x420e;
+const OP_ENTRY: u8 = 1;
+const OP_EXIT: u8 = 2;
+
+#[repr(C)]
+#[derive(Clone, Copy)]
+struct SyscallInfo {
+    op: u8,
+    pad: [u8; 3],
+    arch: u32,
+    ip: u64,
+    sp: u64,
+    // entry: nr, args[6]; exit: rval, is_error
+    data: [u64; 7],
+}
+
+#[derive(Clone, Copy, PartialEq)]
+enum Kind {
+    Path,     // path argument(s)
+    Fd,       // descriptor argument
+}
+
+struct Sys {
+    name: &'static str,
+    kind: Kind,
+    // for Path: (dirfd arg index or -1, path arg index); second path for rename/link family
+    p1: (i32, i32),
+    p2: (i32, i32),
+    fd: i32,
+    len_arg: i32,
+    flags_arg: i32,
+}
+
+fn sys_table(nr: u64) -> Option<Sys> {
+    let p = |name, d1, a1| Sys { name, kind: Kind::Path, p1: (d1, a1), p2: (-2, -1), fd: -1, len_arg: -1, flags_arg: -1 };
+    let p2 = |name, d1, a1, d2, a2| Sys { name, kind: Kind::Path, p1: (d1, a1), p2: (d2, a2), fd: -1, len_arg: -1, flags_arg: -1 };
+    let f = |name, len_arg| Sys { name, kind: Kind::Fd, p1: (-2, -1), p2: (-2, -1), fd: 0, len_arg, flags_arg: -1 };
+    Some(match nr {
+        2 => Sys { flags_arg: 1, ..p("open", -1, 0) },
+        257 => Sys { flags_arg: 2, ..p("openat", 0, 1) },
+        437 => p("openat2", 0, 1),
+        85 => p("creat", -1, 0),
+        83 => p("mkdir", -1, 0),
+        258 => p("mkdirat", 0, 1),
+        82 => p2("rename", -1, 0, -1, 1),
+        264 => p2("renameat", 0, 1, 2, 3),
+        316 => p2("renameat2", 0, 1, 2, 3),
+        87 => p("unlink", -1, 0),
+        263 => Sys { flags_arg: 2, ..p("unlinkat", 0, 1) },
+        84 => p("rmdir", -1, 0),
+        86 => p2("link", -1, 0, -1, 1),
+        265 => p2("linkat", 0, 1, 2, 3),
+        88 => p("symlink", -1, 1),
+        266 => p("symlinkat", 1, 2),
+        4 => p("stat", -1, 0),
+        6 => p("lstat", -1, 0),
+        262 => Sys { flags_arg: 3, ..p("newfstatat", 0, 1) },
+        332 => Sys { flags_arg: 2, ..p("statx", 0, 1) },
+        21 => p("access", -1, 0),
+        269 => p("faccessat", 0, 1),
+        439 => p("faccessat2", 0, 1),
+        89 => p("readlink", -1, 0),
+        267 => p("readlinkat", 0, 1),
+        76 => p("truncate", -1, 0),
+        90 => p("chmod", -1, 0),
+        268 => p("fchmodat", 0, 1),
+        92 => p("chown", -1, 0),
+        260 => p("fchownat", 0, 1),
+        280 => p("utimensat", 0, 1),
+        133 => p("mknod", -1, 0),
+        259 => p("mknodat", 0, 1),
+        0 => f("read", 2),
+        1 => f("write", 2),
+        17 => f("pread64", 2),
+        18 => f("pwrite64", 2),
+        19 => f("readv", -1),
+        20 => f("writev", -1),
+        217 => f("getdents64", -1),
+        285 => f("fallocate", -1),
+        77 => f("ftruncate", -1),
+        74 => f("fsync", -1),
+        75 => f("fdatasync", -1),
+        91 => f("fchmod", -1),
+        326 => Sys { fd: 2, ..f("copy_file_range", 4) },
+        40 => f("sendfile", 3),
+        9 => Sys { fd: 4, ..f("mmap", 1) },
+        16 => f("ioctl", -1),
+        _ => return None,
+    })
+}
+
+#[derive(Clone)]
+struct Step {
+    actor: usize,
+    tid: i32,
+    nr: u64,
+    name: String,
+    paths: Vec<String>,
+    fd_path: Option<String>,
+    fd: i64,
+    len: i64,
+    flags: i64,
+    in_root: bool,
+}
+
+struct Thread {
+    actor: Option<usize>,
+    tgid: i32,
+    in_syscall: bool,
+    held: bool,          // stopped at the entry of a step, not resumed yet
+    cur: Option<Step>,   // step being executed (between entry and exit)
+    pending_ret: Option<i64>, // value to force into rax at exit (fault injection)
+    kill_at_exit: bool,
+}
+
+struct Actor {
+    pid: i32,
+    begun: bool,
+    ended: bool,
+    exited: bool,
+    exit_status: Value,
+    out_fd: RawFd,
+    queue: VecDeque<i32>, // tids held at a step, arrival order
+    steps_done: usize,
+    short_fd_fail: HashMap<i64, i64>, // fd -> errno for the next write on it
+}
+
+struct Ctl {
+    roots: Vec<String>,
+    threads: HashMap<i32, Thread>,
+    actors: Vec<Actor>,
+    thread_mode: bool,
+    monitor: bool,
+    log: Vec<Value>,      // executed steps (and monitored calls)
+    decisions: Vec<Value>,
+    markers: Vec<Value>,
+    nsteps: usize,
+    crash: Option<(usize, Option<i64>)>,
+    faults: Vec<Value>,
+    crashed: bool,
+    deadline: std::time::Instant,
+}
+
+fn errno() -> i32 {
+    unsafe { *libc::__errno_location() }
+}
+
+fn ptrace(req: libc::c_uint, pid: i32, addr: usize, data: usize) -> i64 {
+    unsafe { libc::ptrace(req, pid, addr as *mut libc::c_void, data as *mut libc::c_void) }
+}
+
+fn read_mem(pid: i32, addr: u64, len: usize) -> Option<Vec<u8>> {
+    let mut buf = vec![0u8; len];
+    let local = libc::iovec { iov_base: buf.as_mut_ptr() as *mut libc::c_void, iov_len: len };
+    let remote = libc::iovec { iov_base: addr as *mut libc::c_void, iov_len: len };
+    let n = unsafe { libc::process_vm_readv(pid, &local, 1, &remote, 1, 0) };
+    if n <= 0 {
+        return None;
+    }
+    buf.truncate(n as usize);
+    Some(buf)
+}
+
+fn read_cstr(pid: i32, addr: u64) -> Option<String> {
+    if addr == 0 {
+        return None;
+    }
+    let mut out = Vec::new();
+    let mut a = addr;
+    loop {
+        // read up to the end of the page to avoid faulting across unmapped pages
+        let chunk = 4096 - (a as usize % 4096);
+        let b = read_mem(pid, a, chunk)?;
+        if let Some(i) = b.iter().position(|&c| c == 0) {
+            out.extend_from_slice(&b[..i]);
+            break;
+        }
+        out.extend_from_slice(&b);
+        a += b.len() as u64;
+        if out.len() > 1 << 20 {
+            return None;
+        }
+    }
+    Some(String::from_utf8_lossy(&out).into_owned())
+}
+
+fn normalize(path: &str) -> String {
+    let mut parts: Vec<&str> = Vec::new();
+    for c in path.split('/') {
+        match c {
+            "" | "." => {}
+            ".." => {
+                parts.pop();
+            }
+            x => parts.push(x),
+        }
+    }
+    format!("/{}", parts.join("/"))
+}
+
+fn readlink(p: &str) -> Option<String> {
+    std::fs::read_link(p).ok().map(|x| x.to_string_lossy().into_owned())
+}
+
+fn resolve(tid: i32, dirfd: Option<i64>, path: &str) -> String {
+    if path.starts_with('/') {
+        return normalize(path);
+    }
+    let base = match dirfd {
+        Some(fd) if fd as i32 != libc::AT_FDCWD => readlink(&format!("/proc/{tid}/fd/{fd}")).unwrap_or_else(|| "/?".into()),
+        _ => readlink(&format!("/proc/{tid}/cwd")).unwrap_or_else(|| "/?".into()),
+    };
+    let base = base.trim_end_matches(" (deleted)").to_string();
+    if path.is_empty() {
+        return normalize(&base);
+    }
+    normalize(&format!("{base}/{path}"))
+}
+
+impl Ctl {
+    fn in_root(&self, p: &str) -> bool {
+        self.roots.iter().any(|r| p == r || p.starts_with(&format!("{r}/")))
+    }
+
+    fn describe(&self, tid: i32, actor: usize, nr: u64, args: &[u64; 6]) -> Option<Step> {
+        let s = sys_table(nr)?;
+        let mut paths = Vec::new();
+        let mut fd_path = None;
+        let mut fdv: i64 = -1;
+        let mut len: i64 = -1;
+        let mut flags: i64 = -1;
+        match s.kind {
+            Kind::Path => {
+                for (d, a) in [s.p1, s.p2] {
+                    if a < 0 {
+                        continue;
+                    }
+                    let raw = read_cstr(tid, args[a as usize]).unwrap_or_default();
+                    let dirfd = if d >= 0 { Some(args[d as usize] as i32 as i64) } else { None };
+                    if raw.is_empty() && dirfd.is_some() && nr != 258 {
+                        // AT_EMPTY_PATH on a descriptor (fstat-like): not a path operation
+                        if nr == 332 || nr == 262 {
+                            return None;
+                        }
+                    }
+                    paths.push(resolve(tid, dirfd, &raw));
+                }
+                if s.flags_arg >= 0 {
+                    flags = args[s.flags_arg as usize] as i64;
+                }
+                if nr == 88 || nr == 266 {
+                    // symlink(target, linkpath): the created object is the link path; keep the target text too
+                    let target = read_cstr(tid, args[0]).unwrap_or_default();
+                    fd_path = Some(target);
+                }
+            }
+            Kind::Fd => {
+                fdv = args[s.fd as usize] as i32 as i64;
+                if fdv < 0 {
+                    return None;
+                }
+                if nr == 9 {
+                    // mmap: only file-backed shared mappings matter
+                    let fl = args[3];
+                    if fl & 0x20 != 0 {
+                        return None; // MAP_ANONYMOUS
+                    }
+                    flags = ((args[2] as i64) << 32) | fl as i64; // prot<<32 | flags
+                }
+                if nr == 16 {
+                    let req = args[1];
+                    // FICLONE 0x40049409, FICLONERANGE 0x4020940d
+                    if req != 0x40049409 && req != 0x4020940d {
+                        return None;
+                    }
+                }
+                let l = readlink(&format!("/proc/{tid}/fd/{fdv}"))?;
+                if !l.starts_with('/') {
+                    return None; // pipe, socket, anon inode
+                }
+                fd_path = Some(normalize(l.trim_end_matches(" (deleted)")));
+                if s.len_arg >= 0 {
+                    len = args[s.len_arg as usize] as i64;
+                }
+            }
+        }
+        let in_root = paths.iter().any(|p| self.in_root(p)) || (s.kind == Kind::Fd && fd_path.as_ref().map(|p| self.in_root(p)).unwrap_or(false));
+        Some(Step { actor, tid, nr, name: s.name.to_string(), paths, fd_path, fd: fdv, len, flags, in_root })
+    }
+
+    fn step_json(&self, st: &Step, ret: Option<i64>, idx: Option<usize>, note: &str) -> Value {
+        json!({"actor": st.actor, "sys": st.name, "paths": st.paths, "fd_path": st.fd_path, "len": st.len, "flags": st.flags,
+               "in_root": st.in_root, "ret": ret, "step": idx, "note": note})
+    }
+}
+
+fn die(msg: &str) -> ! {
+    println!("{}", json!({"status": "tracer-error", "error": msg}));
+    std::process::exit(2);
+}
+
+fn spawn(argv: &[String], cwd: Option<&str>) -> (i32, RawFd) {
+    let mut fds = [0i32; 2];
+    if unsafe { libc::pipe(fds.as_mut_ptr()) } != 0 {
+        die("pipe failed");
+    }
+    unsafe { libc::fcntl(fds[1], 1031 /* F_SETPIPE_SZ */, 1 << 20) };
+    let cargs: Vec<CString> = argv.iter().map(|a| CString::new(a.as_str()).unwrap()).collect();
+    let mut ptrs: Vec<*const libc::c_char> = cargs.iter().map(|c| c.as_ptr()).collect();
+    ptrs.push(std::ptr::null());
+    let ccwd = cwd.map(|c| CString::new(c).unwrap());
+    let pid = unsafe { libc::fork() };
+    if pid < 0 {
+        die("fork failed");
+    }
+    if pid == 0 {
+        unsafe {
+            libc::close(fds[0]);
+            libc::dup2(fds[1], 1);
+            libc::close(fds[1]);
+            let devnull = libc::open(b"/dev/null\0".as_ptr() as *const libc::c_char, libc::O_RDWR);
+            libc::dup2(devnull, 0);
+            if std::env::var_os("FSX_STDERR").is_none() {
+                libc::dup2(devnull, 2);
+            }
+            if let Some(c) = &ccwd {
+                libc::chdir(c.as_ptr());
+            }
+            libc::ptrace(libc::PTRACE_TRACEME, 0, 0, 0);
+            libc::raise(libc::SIGSTOP);
+            libc::execv(ptrs[0], ptrs.as_ptr());
+            libc::_exit(127);
+        }
+    }
+    unsafe { libc::close(fds[1]) };
+    let mut status = 0;
+    let r = unsafe { libc::waitpid(pid, &mut status, libc::__WALL) };
+    if r != pid || !libc::WIFSTOPPED(status) {
+        die("child did not stop");
+    }
+    let opts = libc::PTRACE_O_TRACESYSGOOD | libc::PTRACE_O_TRACECLONE | libc::PTRACE_O_TRACEFORK | libc::PTRACE_O_TRACEVFORK
+        | libc::PTRACE_O_TRACEEXEC | libc::PTRACE_O_EXITKILL;
+    if ptrace(libc::PTRACE_SETOPTIONS, pid, 0, opts as usize) != 0 {
+        die("PTRACE_SETOPTIONS failed");
+    }
+    (pid, fds[0])
+}
+
+fn tgid_of(tid: i32) -> i32 {
+    if let Ok(s) = std::fs::read_to_string(format!("/proc/{tid}/status")) {
+        for l in s.lines() {
+            if let Some(v) = l.strip_prefix("Tgid:") {
+                return v.trim().parse().unwrap_or(tid);
+            }
+        }
+    }
+    tid
+}
+
+fn read_all(fd: RawFd) -> String {
+    let mut out = Vec::new();
+    let mut buf = [0u8; 65536];
+    loop {
+        let n = unsafe { libc::read(fd, buf.as_mut_ptr() as *mut libc::c_void, buf.len()) };
+        if n <= 0 {
+            break;
+        }
+        out.extend_from_slice(&buf[..n as usize]);
+    }
+    String::from_utf8_lossy(&out).into_owned()
+}
+
+enum Ev {
+    /// a thread is now held at the entry of a step
+    Held(i32),
+    /// a step finished (syscall exit processed)
+    StepDone(i32),
+    Other,
+    /// no tracees left
+    NoChildren,
+    Timeout,
+}
+
+impl Ctl {
+    fn resume(&self, tid: i32, sig: i32) {
+        ptrace(libc::PTRACE_SYSCALL, tid, 0, sig as usize);
+    }
+
+    fn kill_all(&mut self) {
+        for a in &self.actors {
+            unsafe { libc::kill(a.pid, libc::SIGKILL) };
+        }
+        self.crashed = true;
+    }
+
+    /// Wait for and process one ptrace event.
+    fn pump(&mut self) -> Ev {
+        let mut status = 0;
+        let left = self.deadline.saturating_duration_since(std::time::Instant::now());
+        if left.is_zero() {
+            return Ev::Timeout;
+        }
+        // arm a one-shot timer so that a hung tracee cannot block us forever
+        let secs = left.as_secs().max(1) as u32;
+        unsafe { libc::alarm(secs + 1) };
+        let tid = unsafe { libc::waitpid(-1, &mut status, libc::__WALL) };
+        unsafe { libc::alarm(0) };
+        if tid < 0 {
+            if errno() == libc::ECHILD {
+                return Ev::NoChildren;
+            }
+            if errno() == libc::EINTR {
+                return Ev::Timeout;
+            }
+            die("waitpid failed");
+        }
+        if !self.threads.contains_key(&tid) {
+            let tg = tgid_of(tid);
+            let actor = if self.thread_mode { None } else { self.actors.iter().position(|a| a.pid == tg) };
+            self.threads.insert(tid, Thread { actor, tgid: tg, in_syscall: false, held: false, cur: None, pending_ret: None, kill_at_exit: false });
+        }
+        if libc::WIFEXITED(status) || libc::WIFSIGNALED(status) {
+            let th = self.threads.remove(&tid).unwrap();
+            for a in self.actors.iter_mut() {
+                if a.pid == tid {
+                    a.exited = true;
+                    a.exit_status = if libc::WIFEXITED(status) { json!({"code": libc::WEXITSTATUS(status)}) } else { json!({"signal": libc::WTERMSIG(status)}) };
+                }
+                a.queue.retain(|t| *t != tid);
+            }
+            let _ = th;
+            return Ev::Other;
+        }
+        if !libc::WIFSTOPPED(status) {
+            return Ev::Other;
+        }
+        let sig = libc::WSTOPSIG(status);
+        let event = (status >> 16) & 0xffff;
+        if sig == (libc::SIGTRAP | 0x80) {
+            return self.on_syscall(tid);
+        }
+        if sig == libc::SIGTRAP && event != 0 {
+            // clone/fork/exec event stop
+            self.resume(tid, 0);
+            return Ev::Other;
+        }
+        if sig == libc::SIGSTOP {
+            // initial stop of an auto-attached thread (or a stray stop): swallow
+            self.resume(tid, 0);
+            return Ev::Other;
+        }
+        // genuine signal: deliver it
+        self.resume(tid, sig);
+        Ev::Other
+    }
+
+    fn on_syscall(&mut self, tid: i32) -> Ev {
+        let mut info = SyscallInfo { op: 0, pad: [0; 3], arch: 0, ip: 0, sp: 0, data: [0; 7] };
+        let r = ptrace(PTRACE_GET_SYSCALL_INFO, tid, std::mem::size_of::<SyscallInfo>(), &mut info as *mut _ as usize);
+        if r < 0 {
+            // thread vanished (killed)
+            return Ev::Other;
+        }
+        if info.op == OP_ENTRY {
+            let nr = info.data[0];
+            let args: [u64; 6] = [info.data[1], info.data[2], info.data[3], info.data[4], info.data[5], info.data[6]];
+            self.threads.get_mut(&tid).unwrap().in_syscall = true;
+            // markers: write(-1, "FSX:...", n)
+            if nr == 1 && args[0] as i32 == -1 && args[2] < 256 {
+                if let Some(b) = read_mem(tid, args[1], args[2] as usize) {
+                    let s = String::from_utf8_lossy(&b).into_owned();
+                    if let Some(m) = s.strip_prefix("FSX:") {
+                        self.on_marker(tid, m);
+                    }
+                }
+                self.resume(tid, 0);
+                return Ev::Other;
+            }
+            let actor = self.threads[&tid].actor;
+            let active = actor.map(|a| self.actors[a].begun && !self.actors[a].ended).unwrap_or(false);
+            if !active {
+                self.resume(tid, 0);
+                return Ev::Other;
+            }
+            let a = actor.unwrap();
+            match self.describe(tid, a, nr, &args) {
+                Some(st) if st.in_root => {
+                    let th = self.threads.get_mut(&tid).unwrap();
+                    th.held = true;
+                    th.cur = Some(st);
+                    self.actors[a].queue.push_back(tid);
+                    Ev::Held(tid)
+                }
+                Some(st) => {
+                    if self.monitor {
+                        let th = self.threads.get_mut(&tid).unwrap();
+                        th.cur = Some(st);
+                    }
+                    self.resume(tid, 0);
+                    Ev::Other
+                }
+                None => {
+                    self.resume(tid, 0);
+                    Ev::Other
+                }
+            }
+        } else if info.op == OP_EXIT {
+            let rval = info.data[0] as i64;
+            let (cur, forced, kill) = {
+                let th = self.threads.get_mut(&tid).unwrap();
+                th.in_syscall = false;
+                (th.cur.take(), th.pending_ret.take(), std::mem::replace(&mut th.kill_at_exit, false))
+            };
+            let mut ret = rval;
+            if let Some(f) = forced {
+                let mut regs: libc::user_regs_struct = unsafe { std::mem::zeroed() };
+                ptrace(libc::PTRACE_GETREGS, tid, 0, &mut regs as *mut _ as usize);
+                regs.rax = f as u64;
+                ptrace(libc::PTRACE_SETREGS, tid, 0, &regs as *const _ as usize);
+                ret = f;
+            }
+            if let Some(st) = cur {
+                if st.in_root {
+                    let idx = self.nsteps;
+                    self.nsteps += 1;
+                    self.actors[st.actor].steps_done += 1;
+                    let note = if kill { "torn-then-killed" } else if forced.is_some() { "fault-injected" } else { "" };
+                    let j = self.step_json(&st, Some(ret), Some(idx), note);
+                    self.log.push(j);
+                    if kill {
+                        self.kill_all();
+                        return Ev::StepDone(tid);
+                    }
+                    self.resume(tid, 0);
+                    return Ev::StepDone(tid);
+                } else if self.monitor {
+                    let j = self.step_json(&st, Some(ret), None, "");
+                    self.log.push(j);
+                }
+            }
+            self.resume(tid, 0);
+            Ev::Other
+        } else {
+            self.resume(tid, 0);
+            Ev::Other
+        }
+    }
+
+    fn on_marker(&mut self, tid: i32, m: &str) {
+        let parts: Vec<&str> = m.split(':').collect();
+        self.markers.push(json!({"marker": m, "after_steps": self.nsteps}));
+        match parts[0] {
+            "begin" => {
+                if self.thread_mode {
+                    if let Some(i) = parts.get(1).and_then(|x| x.parse::<usize>().ok()) {
+                        if i < self.actors.len() {
+                            self.threads.get_mut(&tid).unwrap().actor = Some(i);
+                            self.actors[i].begun = true;
+                        }
+                    }
+                } else if let Some(a) = self.threads[&tid].actor {
+                    self.actors[a].begun = true;
+                }
+            }
+            "end" => {
+                if let Some(a) = self.threads[&tid].actor {
+                    self.actors[a].ended = true;
+                }
+            }
+            _ => {}
+        }
+    }
+
+    fn actor_live(&self, a: usize) -> bool {
+        let ac = &self.actors[a];
+        if self.thread_mode {
+            !ac.ended && !self.actors[0].exited
+        } else {
+            !ac.ended && !ac.exited
+        }
+    }
+
+    /// Run until every live actor is held at a step (or finished). Returns false on timeout.
+    fn settle(&mut self) -> bool {
+        loop {
+            let waiting = (0..self.actors.len()).any(|a| self.actor_live(a) && self.actors[a].queue.is_empty());
+            if !waiting {
+                return true;
+            }
+            match self.pump() {
+                Ev::Timeout => return false,
+                Ev::NoChildren => return true,
+                _ => {}
+            }
+            if self.crashed {
+                return true;
+            }
+        }
+    }
+
+    /// Release the first held thread of actor a and wait until that step's syscall has exited.
+    fn release(&mut self, a: usize) -> bool {
+        let tid = match self.actors[a].queue.pop_front() {
+            Some(t) => t,
+            None => return true,
+        };
+        let idx = self.nsteps;
+        // crash / fault hooks at the entry of global step idx
+        let st = self.threads[&tid].cur.clone().unwrap();
+        if let Some((k, tear)) = self.crash {
+            if k == idx {
+                match tear {
+                    None => {
+                        let j = self.step_json(&st, None, Some(idx), "killed-at-entry");
+                        self.log.push(j);
+                        self.nsteps += 1;
+                        self.kill_all();
+                        return true;
+                    }
+                    Some(t) => {
+                        self.set_len(tid, &st, t);
+                        self.threads.get_mut(&tid).unwrap().kill_at_exit = true;
+                    }
+                }
+            }
+        }
+        let mut inject: Option<i64> = None;
+        let mut short: Option<i64> = None;
+        let mut then_errno: Option<i64> = None;
+        for f in &self.faults {
+            if f["step"].as_u64() == Some(idx as u64) {
+                if let Some(e) = f["errno"].as_i64() {
+                    inject = Some(e);
+                }
+                if let Some(t) = f["short"].as_i64() {
+                    short = Some(t);
+                }
+                if let Some(e) = f["then_errno"].as_i64() {
+                    then_errno = Some(e);
+                }
+            }
+        }
+        if inject.is_none() && (st.name == "write" || st.name == "pwrite64") {
+            if let Some(e) = self.actors[a].short_fd_fail.remove(&st.fd) {
+                inject = Some(e);
+            }
+        }
+        if let Some(e) = inject {
+            // suppress the syscall and make it return -errno
+            let mut regs: libc::user_regs_struct = unsafe { std::mem::zeroed() };
+            ptrace(libc::PTRACE_GETREGS, tid, 0, &mut regs as *mut _ as usize);
+            regs.orig_rax = u64::MAX;
+            ptrace(libc::PTRACE_SETREGS, tid, 0, &regs as *const _ as usize);
+            self.threads.get_mut(&tid).unwrap().pending_ret = Some(-e);
+        } else if let Some(t) = short {
+            self.set_len(tid, &st, t);
+            if let Some(e) = then_errno {
+                self.actors[a].short_fd_fail.insert(st.fd, e);
+            }
+        }
+        {
+            let th = self.threads.get_mut(&tid).unwrap();
+            th.held = false;
+        }
+        self.resume(tid, 0);
+        loop {
+            match self.pump() {
+                Ev::StepDone(t) if t == tid => return true,
+                Ev::Timeout => return false,
+                Ev::NoChildren => return true,
+                _ => {
+                    if !self.threads.contains_key(&tid) {
+                        return true; // thread died inside the call (killed)
+                    }
+                }
+            }
+        }
+    }
+
+    fn set_len(&mut self, tid: i32, st: &Step, t: i64) {
+        let mut regs: libc::user_regs_struct = unsafe { std::mem::zeroed() };
+        ptrace(libc::PTRACE_GETREGS, tid, 0, &mut regs as *mut _ as usize);
+        // read/write/pread64/pwrite64: length is the third argument (rdx)
+        if matches!(st.name.as_str(), "read" | "write" | "pread64" | "pwrite64") {
+            regs.rdx = t as u64;
+            ptrace(libc::PTRACE_SETREGS, tid, 0, &regs as *const _ as usize);
+        }
+    }
+}
+
+extern "C" fn on_alarm(_: i32) {}
+
+fn main() {
+    let args: Vec<String> = std::env::args().collect();
+    if args.len() < 2 {
+        eprintln!("usage: fsx <spec.json>");
+        std::process::exit(2);
+    }
+    let spec: Value = serde_json::from_str(&std::fs::read_to_string(&args[1]).unwrap_or_else(|_| die("cannot read spec"))).unwrap_or_else(|_| die("bad spec json"));
+    unsafe {
+        let mut sa: libc::sigaction = std::mem::zeroed();
+        sa.sa_sigaction = on_alarm as usize;
+        sa.sa_flags = 0; // no SA_RESTART: waitpid must return EINTR
+        libc::sigaction(libc::SIGALRM, &sa, std::ptr::null_mut());
+    }
+    let roots: Vec<String> = spec["roots"].as_array().map(|a| a.iter().filter_map(|x| x.as_str().map(normalize)).collect()).unwrap_or_default();
+    let timeout = spec["timeout_ms"].as_u64().unwrap_or(10000);
+    let mut ctl = Ctl {
+        roots,
+        threads: HashMap::new(),
+        actors: Vec::new(),
+        thread_mode: false,
+        monitor: spec["monitor"].as_bool().unwrap_or(false),
+        log: Vec::new(),
+        decisions: Vec::new(),
+        markers: Vec::new(),
+        nsteps: 0,
+        crash: spec.get("crash").filter(|c| c.is_object()).map(|c| (c["step"].as_u64().unwrap_or(0) as usize, c["tear"].as_i64())),
+        faults: spec["faults"].as_array().cloned().unwrap_or_default(),
+        crashed: false,
+        deadline: std::time::Instant::now() + std::time::Duration::from_millis(timeout),
+    };
+    let strs = |v: &Value| -> Vec<String> { v.as_array().map(|a| a.iter().filter_map(|x| x.as_str().map(String::from)).collect()).unwrap_or_default() };
+    if let Some(t) = spec.get("threads").filter(|t| t.is_object()) {
+        ctl.thread_mode = true;
+        let n = t["n"].as_u64().unwrap_or(2) as usize;
+        let (pid, fd) = spawn(&strs(&t["argv"]), t["cwd"].as_str());
+        for i in 0..n {
+            ctl.actors.push(Actor { pid: if i == 0 { pid } else { -1 - i as i32 }, begun: false, ended: false, exited: false, exit_status: Value::Null,
+                                    out_fd: if i == 0 { fd } else { -1 }, queue: VecDeque::new(), steps_done: 0, short_fd_fail: HashMap::new() });
+        }
+        ctl.threads.insert(pid, Thread { actor: None, tgid: pid, in_syscall: false, held: false, cur: None, pending_ret: None, kill_at_exit: false });
+        ctl.resume(pid, 0);
+    } else {
+        for a in spec["actors"].as_array().cloned().unwrap_or_default() {
+            let (pid, fd) = spawn(&strs(&a["argv"]), a["cwd"].as_str());
+            let idx = ctl.actors.len();
+            ctl.actors.push(Actor { pid, begun: false, ended: false, exited: false, exit_status: Value::Null, out_fd: fd, queue: VecDeque::new(),
+                                    steps_done: 0, short_fd_fail: HashMap::new() });
+            ctl.threads.insert(pid, Thread { actor: Some(idx), tgid: pid, in_syscall: false, held: false, cur: None, pending_ret: None, kill_at_exit: false });
+            ctl.resume(pid, 0);
+        }
+    }
+    let schedule: Vec<usize> = spec["schedule"].as_array().map(|a| a.iter().filter_map(|x| x.as_u64().map(|v| v as usize)).collect()).unwrap_or_default();
+    let mut status = "ok".to_string();
+    let mut error = Value::Null;
+    let mut running: Option<usize> = None;
+    let mut di = 0usize;
+    loop {
+        if !ctl.settle() {
+            status = "timeout".into();
+            break;
+        }
+        if ctl.crashed {
+            break;
+        }
+        let enabled: Vec<usize> = (0..ctl.actors.len()).filter(|&a| !ctl.actors[a].queue.is_empty()).collect();
+        if enabled.is_empty() {
+            break;
+        }
+        let choice = if di < schedule.len() {
+            let c = schedule[di];
+            if !enabled.contains(&c) {
+                status = "schedule-divergence".into();
+                error = json!({"decision": di, "wanted": c, "enabled": enabled});
+                break;
+            }
+            c
+        } else {
+            match running {
+                Some(r) if enabled.contains(&r) => r,
+                _ => enabled[0],
+            }
+        };
+        let st = ctl.threads[ctl.actors[choice].queue.front().unwrap()].cur.clone().unwrap();
+        ctl.decisions.push(json!({"enabled": enabled, "chosen": choice, "running": running, "sys": st.name,
+                                  "path": st.paths.first().cloned().or(st.fd_path.clone())}));
+        di += 1;
+        running = Some(choice);
+        if !ctl.release(choice) {
+            status = "timeout".into();
+            break;
+        }
+        if ctl.crashed {
+            break;
+        }
+    }
+    // let everything run to completion (or die)
+    if status != "ok" || ctl.crashed {
+        for a in &ctl.actors {
+            if a.pid > 0 {
+                unsafe { libc::kill(a.pid, libc::SIGKILL) };
+            }
+        }
+    }
+    // detach held threads if any remain (divergence): they were killed above
+    let drain_deadline = std::time::Instant::now() + std::time::Duration::from_millis(3000);
+    ctl.deadline = drain_deadline;
+    loop {
+        match ctl.pump() {
+            Ev::NoChildren => break,
+            Ev::Timeout => {
+                for a in &ctl.actors {
+                    if a.pid > 0 {
+                        unsafe { libc::kill(a.pid, libc::SIGKILL) };
+                    }
+                }
+                ctl.deadline = std::time::Instant::now() + std::time::Duration::from_millis(2000);
+                if status == "ok" {
+                    status = "timeout".into();
+                }
+            }
+            Ev::Held(tid) => {
+                // a step after all actors ended cannot happen; a held thread here belongs to a killed group
+                let th = ctl.threads.get_mut(&tid);
+                if let Some(th) = th {
+                    th.held = false;
+                }
+                ctl.resume(tid, 0);
+            }
+            _ => {}
+        }
+    }
+    let actors: Vec<Value> = ctl
+        .actors
+        .iter()
+        .map(|a| {
+            let out = if a.out_fd >= 0 { read_all(a.out_fd) } else { String::new() };
+            json!({"exit": a.exit_status, "stdout": out, "begun": a.begun, "ended": a.ended, "steps": a.steps_done})
+        })
+        .collect();
+    println!("{}", json!({"status": status, "error": error, "crashed": ctl.crashed, "nsteps": ctl.nsteps, "steps": ctl.log, "decisions": ctl.decisions,
+                          "markers": ctl.markers, "actors": actors}));
+}
